@@ -119,7 +119,7 @@ pub fn start_world(scen: &'static Scenario, ctx: &mut Ctx) -> Option<World> {
     for a in &scen.prefix {
         // scripted prefixes must be executable: a typo is a machinery error, not a verdict
         match a {
-            Action::Settle | Action::Settle0(_) | Action::Isolate(_) | Action::DropAll => {}
+            Action::Settle | Action::Settle0(_) | Action::Isolate(_) | Action::DropAll | Action::LockTick | Action::LockDeliver => {}
             Action::Ready(i, _) | Action::ReadyAsync(i) => {
                 let ok = w.live(*i as usize - 1).map(|l| l.rn.has_ready()).unwrap_or(false);
                 assert!(ok, "prefix of {}: {:?} but node has no Ready", scen.name, a);
@@ -133,8 +133,7 @@ pub fn start_world(scen: &'static Scenario, ctx: &mut Ctx) -> Option<World> {
             return None;
         }
     }
-    w.in_prefix = false;
-    w.used = Counts::default();
+    w.end_prefix();
     Some(w)
 }
 
@@ -479,7 +478,7 @@ pub struct Replay {
     pub final_desc: String,
 }
 
-pub fn replay(scen: &'static Scenario, path: &[Action], verbose: bool) -> Replay {
+pub fn replay(scen: &'static Scenario, path: &[Action], verbose: bool, hook: Option<fn(&World, &mut Ctx)>) -> Replay {
     let mut ctx = Ctx::new();
     if verbose {
         ctx.trace = Some(vec![]);
@@ -544,14 +543,23 @@ pub fn replay(scen: &'static Scenario, path: &[Action], verbose: bool) -> Replay
             r.trace.push(w.describe());
         }
     }
+    if let (Some(h), None, true) = (hook, r.died_at, r.all_enabled) {
+        h(&w, &mut ctx);
+        for v in ctx.viol.drain(..) {
+            if verbose {
+                r.trace.push(format!("  !! {} {}: {}", v.prop, v.kind, v.detail));
+            }
+            r.viol.push((path.len(), v));
+        }
+    }
     r.final_desc = w.describe();
     r
 }
 
 /// Greedy shrinking: drop actions while the same (prop, kind) still occurs.
-pub fn shrink(scen: &'static Scenario, path: &[Action], prop: &str, kind: &str) -> Vec<Action> {
+pub fn shrink(scen: &'static Scenario, path: &[Action], prop: &str, kind: &str, hook: Option<fn(&World, &mut Ctx)>) -> Vec<Action> {
     let hits = |p: &[Action]| -> Option<usize> {
-        let r = replay(scen, p, false);
+        let r = replay(scen, p, false, hook);
         if !r.all_enabled {
             return None;
         }
